@@ -322,3 +322,12 @@ def buildlog(pid, tier, replay):
                       "SPECIFICATION Spec\nCONSTANT MaxOps = %d\nINVARIANT SafeInv\nINVARIANT CompleteInv\nINVARIANT ExactInv\nCHECK_DEADLOCK FALSE\n" % (4 if q else 5),
                       "BuildLogTrace", [("tear1", 3 if q else 12), ("tear2", 2 if q else 6), ("maint", 3 if q else 12), ("version", 3 if q else 12)],
                       40 if q else 600, {"C08"})
+
+
+@reg("C09")
+def depslog(pid, tier, replay):
+    q = tier == "quick"
+    return _log_check(pid, tier, replay, "dlog", "DepsLog.tla",
+                      "SPECIFICATION Spec\nCONSTANT MaxOps = %d\nINVARIANT TableIsHistory\nINVARIANT ReloadAgrees\nCHECK_DEADLOCK FALSE\n" % (4 if q else 6),
+                      "DepsLogTrace", [("tear1", 2 if q else 6), ("tear2", 2 if q else 6), ("damage", 2 if q else 6), ("recompact", 3 if q else 8)],
+                      40 if q else 600, {"C09"})
